@@ -45,12 +45,18 @@ def c12_extra(prop,tier,seed,repo,reg,known):
 def c13_extra(prop,tier,seed,repo,reg,known):
   from zoo.run import run_tr
   return run_tr('C13',repo,seed,tier)
+def c15_extra(prop,tier,seed,repo,reg,known):
+  from zoo.run import run_repl
+  return run_repl(repo,seed,tier)
+def c17_extra(prop,tier,seed,repo,reg,known):
+  from zoo.run import run_clq
+  return rtl_extra(prop,tier,seed,repo,reg,known)+run_clq(repo,seed,tier)
 def rtl_extra(prop,tier,seed,repo,reg,known):
   from .rtl_run import run_specs
   return run_specs([sp for sp in rtl_specs() if prop in sp.prop_ids],tier,repo)
 
 
-FIX_COMMITS=['052e08e','9c79cb1','dce12fb','1afafb3','61a0063','7632b61','95f312b','22cc801','ef02dce','8ef5b7c','87ae370']
+FIX_COMMITS=['052e08e','9c79cb1','dce12fb','1afafb3','61a0063','7632b61','95f312b','22cc801','ef02dce','8ef5b7c','87ae370','ea7dd35']
 
 PROPERTIES={
  'C04': dict(level='proof',
@@ -71,20 +77,22 @@ PROPERTIES={
    note="The update-block ASTs of the real classes are executed symbolically over bit-vectors in the real schedule order (GenDAGPass + DynamicSchedulePass run for real); operator semantics = postconditions of the Bits contracts (C04/C05) via the transfer table of rtlvc/bvsem.py (self-checked by z3 for small widths). Trusted: AstHelper's read/write extraction used by the scheduler, the tick composition (C01/C07), rtlvc itself. nreqs is enumerated, not symbolic.",
    extra=['contracts:rtl_extra'], require_cover=False,
    assumptions=["structure parameter nreqs enumerated 2..8 (quick) / 2..16 (thorough); a proof for symbolic nreqs would need a parametric netlist = a hand-written model (refused)"]),
- 'C17': dict(level='proof', engine='rtlvc',
-   claim="Proof per configuration (capacity 1..4 quick / 1..8 thorough, entry width 1 and 8 with symbolic contents; unbounded in histories): the six RTL queue classes of stdlib/queues/queues.py and stdlib/stream/queues.py refine a FIFO: with the abstraction seq = [regs[(head+i) mod n] : i < count] and the invariant count<=n, head,tail<n, tail=(head+count) mod n, every protocol-legal cycle gives the rdy/val table of the statement for the queue kind, the dequeued message is the oldest accepted one (bypass: the incoming one when empty), count is the occupancy, and seq' = (seq ++ [msg] if enq)[1:] if deq. Violations are reported as traces from reset replayed on the real simulator.",
-   note="Not covered: cycle-level queues (cl_queues.py: method scheduling is outside rtlvc), enrdy_queues.py, valrdy_queues.py (the latter does not import at the pinned commit). Capacity and width enumerated; contents symbolic (data independence is not assumed). Trusted: scheduler/tick composition (C01/C07), AstHelper, rtlvc.",
-   extra=['contracts:rtl_extra'], require_cover=False,
+ 'C17': dict(level='other', engine='rtlvc',
+   explanation="RTL queues proved per configuration by rtlvc; cycle-level queues checked natively on enumerated scenarios (bounded)",
+   claim="Mixed. Bounded stand-in for the cycle-level queues: NormalQueueCL / PipeQueueCL / BypassQueueCL, capacity 1..3, every legal order of the enqueueing and dequeueing blocks, seeded offer sequences: ready answers follow the table of the statement, FIFO order, occupancy bounded. RTL queues: Proof per configuration (capacity 1..4 quick / 1..8 thorough, entry width 1 and 8 with symbolic contents; unbounded in histories): the six RTL queue classes of stdlib/queues/queues.py and stdlib/stream/queues.py refine a FIFO: with the abstraction seq = [regs[(head+i) mod n] : i < count] and the invariant count<=n, head,tail<n, tail=(head+count) mod n, every protocol-legal cycle gives the rdy/val table of the statement for the queue kind, the dequeued message is the oldest accepted one (bypass: the incoming one when empty), count is the occupancy, and seq' = (seq ++ [msg] if enq)[1:] if deq. Violations are reported as traces from reset replayed on the real simulator.",
+   note="Cycle-level queues only by the bounded stand-in (method scheduling is outside rtlvc). Not covered: enrdy_queues.py, valrdy_queues.py (the latter does not import at the pinned commit). Capacity and width enumerated; contents symbolic (data independence is not assumed). Trusted: scheduler/tick composition (C01/C07), AstHelper, rtlvc.",
+   extra=['contracts:c17_extra'], require_cover=False,
    assumptions=["enq/deq interface users respect the protocol (en only when rdy) for the EnqIfc/DeqIfc flavour; stream flavour: no assumption"]),
  'C20': dict(level='proof', engine='rtlvc',
    claim="Checksum half only. Proof for all 2^128 inputs and all histories that ChecksumRTL sends exactly the Fletcher checksum (sum1/sum2 recurrences mod 2^16, as in the statement) of the message it buffered, sends exactly when a message is buffered and the receiver is ready, buffers accepted inputs unchanged and in order (1-entry pipe queue); and that the FL function checksum() and utils.b128_to_words/words_to_b128 meet the same specification (pyvc, words symbolic). Hence FL == RTL == spec for every input. The TinyRV0 processor half of C20 is NOT covered.",
    note="Not covered: ProcFL/ProcCL/ProcRTL against the ISA (a pipelined-processor refinement proof over greenlet-based FL code is out of reach of this tool set, DESIGN.md section 6 C20); ChecksumCL's method-level scheduling (its block calls the FL function, which is under contract). Trusted: as C17/C19.",
    extra=['contracts:rtl_extra'], require_cover=False,
    assumptions=["the sender respects recv.rdy (en only when rdy)"]),
- 'C15': dict(level='proof',
-   claim="Scoped proof: for the _uncollect_vars override of every ComponentLevel (the method replace_component/delete_component use to forget a removed component) and arbitrary (symbolic, unbounded) metadata collections, every all_* collection of the top (update blocks and their host map, U-U constraints, update_ff, RD-U and WR-U constraints, read/write/call maps, update_once blocks, method constraints) loses exactly the removed component's contribution and nothing else (frame), for every iteration order of the sets/dicts involved. The most derived override answers for all levels, so a level that collects but does not uncollect is a failed obligation.",
-   note="Not covered: equality with a from-scratch build, nets/writers, simulation equality, Component._delete_component/_add_component themselves (nested closures with repr/eval: out of reach; see DESIGN.md). Collections are modelled as SMT arrays over an algebraic object sort; loops over sets/dicts are proved for an arbitrary unseen element against sidecar invariants.",
-   require_cover=False,
+ 'C15': dict(level='other',
+   explanation="the uncollect functions are proved deductively; replace_component as a whole is compared with a from-scratch build on enumerated scenarios (bounded)",
+   claim="Mixed. Bounded stand-in: 72 replacement scenarios (attribute child, child read by a parent block, list element, list element two levels down; replace_component, replace_component_with_obj, three replacements in a row; children with registers, inner components, internal constant connections, explicit constraints) give component/signal name sets, nets with writers, adjacency, update blocks with read/write sets, update_ff and explicit constraints equal to those of the same classes built from scratch, leave no '<deleted>' object reachable and simulate identically. Scoped proof: for the _uncollect_vars override of every ComponentLevel (the method replace_component/delete_component use to forget a removed component) and arbitrary (symbolic, unbounded) metadata collections, every all_* collection of the top (update blocks and their host map, U-U constraints, update_ff, RD-U and WR-U constraints, read/write/call maps, update_once blocks, method constraints) loses exactly the removed component's contribution and nothing else (frame), for every iteration order of the sets/dicts involved. The most derived override answers for all levels, so a level that collects but does not uncollect is a failed obligation.",
+   note="Component._delete_component/_add_component themselves are not under discharged contracts (nested closures with repr/eval: out of reach): equality with a from-scratch build is bounded evidence only. Collections are modelled as SMT arrays over an algebraic object sort; loops over sets/dicts are proved for an arbitrary unseen element against sidecar invariants.",
+   extra=['contracts:c15_extra'], require_cover=False,
    assumptions=["the removed component's update blocks are keys of the top's host/read/write/call maps (it was collected before) - precondition of the del statements",
                 "set/dict/defaultdict operations of CPython behave as the array model of pyvc/symcoll.py"]),
  'C06': dict(level='proof',
